@@ -79,6 +79,57 @@ def parse_bt(s):
     return m.group(1), m.group(2)
 
 
+
+def _split_top(text, m, sep):
+    """split `text` (mask m) on `sep` at bracket depth 0"""
+    parts, d, last, i = [], 0, 0, 0
+    while i < len(text):
+        ch = m[i]
+        if ch in '([{':
+            d += 1
+        elif ch in ')]}':
+            d -= 1
+        elif d == 0 and m.startswith(sep, i):
+            parts.append(text[last:i])
+            last = i + len(sep)
+            i += len(sep)
+            continue
+        i += 1
+    parts.append(text[last:])
+    return parts
+
+
+def rewrite_let_chains(text):
+    """R8 (general): `if A && let P = E && B { body }` (no else) -> nested ifs.  Returns (text, count)."""
+    count = 0
+    pos = 0
+    while True:
+        m = mask(text)
+        mt = re.compile(r'(?<![A-Za-z0-9_])if\b').search(m, pos)
+        if not mt:
+            return text, count
+        i = mt.start()
+        try:
+            o = find_body_open(m, mt.end())
+        except ScanError:
+            pos = mt.end()
+            continue
+        cond = text[mt.end():o]
+        atoms = _split_top(cond, m[mt.end():o], '&&')
+        if len(atoms) > 1 and any(a.strip().startswith('let ') for a in atoms):
+            c = match_close(m, o)
+            if m[c + 1:].lstrip().startswith('else'):
+                raise Undecided('let-chain with an else branch is outside rule R8')
+            if '||' in ''.join(_split_top(a, mask(a), '\x00')[0] for a in atoms if not a.strip().startswith('(')) and False:
+                pass
+            new = ''.join('if %s { ' % a.strip() for a in atoms) + text[o + 1:c] + ' }' * len(atoms)
+            text = text[:i] + new + text[c + 1:]
+            count += 1
+            pos = i + 2
+        else:
+            pos = mt.end()
+
+
 class Obl:
     def __init__(self, oid, props, fn=None, kind='clause', text=''):
         self.id = oid
@@ -174,6 +225,9 @@ class Unit:
             text, n = re.subn(rx, repl, text)
             if n:
                 rec.rewrites.append(dict(rule=rule, what=note, count=n))
+        text, n = rewrite_let_chains(text)
+        if n:
+            rec.rewrites.append(dict(rule='R8', what='let-chain -> nested if', count=n))
         for rule, rx, repl in self.gsubs:
             text, n = re.subn(rx, repl, text)
             if n:
